@@ -570,6 +570,9 @@ def run(ck):
     ck.attempt(rule_loop, rid="C02.R4o")
     ck.attempt(rule_binding)
     ck.attempt(rule_connected_charged)
+    # the recorded rates are kept as given (no integer storage): rule of C04 applied to charging_rates
+    from .c04 import rule_float_storage
+    ck.attempt(rule_float_storage, rid="C02.R11", attrs=("charging_rates",))
     ck.attempt(rule_vacancy)
     ck.attempt(rule_recording)
     from .c18 import rule_energy_totals, rule_current_power
@@ -588,3 +591,8 @@ def run(ck):
     # overwrites an earlier one and its energy drops out of the total (pairing rule of C01)
     from .c01 import rule_pairing
     ck.attempt(rule_pairing, rid="C02.R9")
+    # "total energy ... recorded rates": a trajectory reloaded from JSON keeps every row with its station (mapping order survives the text
+    # form: rule of C09 on to_json / from_json)
+    from .c09 import rule_json_order
+    ck.attempt(rule_json_order, rid="C02.R12")
+
